@@ -141,7 +141,10 @@ def shrink_candidates(plan):
 
 
 def state_digest(state) -> str:
-    return tree_digest({k: {"v": v.value, "o": np.asarray(v.outdated)} for k, v in state.items()})
+    try:
+        return tree_digest({k: {"v": v.value, "o": np.asarray(v.outdated)} for k, v in state.items()})
+    except Exception as e:  # e.g. a leaked tracer inside a state that should hold concrete arrays
+        return f"undigestable:{type(e).__name__}"
 
 
 def plain_state(state):
@@ -158,6 +161,13 @@ def unstack_state(state, b):
 
 
 def states_equal(a, b, tol=None):
+    try:
+        return _states_equal(a, b, tol)
+    except Exception as e:  # leaked tracers etc.
+        return f"the state cannot be read ({type(e).__name__})"
+
+
+def _states_equal(a, b, tol=None):
     if sorted(a) != sorted(b):
         return f"node names differ: {sorted(set(a) ^ set(b))[:5]}"
     for k in a:
@@ -195,10 +205,14 @@ def exec_liesel(plan, V, log, counters):
             return 0
         raise SutError(f"build_model|{type(e).__name__}|?|{e}") from e
     model.auto_update = plan["user_auto"]
+    R = copy.deepcopy(model)
+    digest_before_iface = state_digest(model.state)
     with warnings.catch_warnings():
         warnings.simplefilter("ignore")
         iface = lsl.GooseModel(model) if plan["iface"] == "GooseModel" else gs.LieselInterface(model)
-    R = copy.deepcopy(model)
+    if state_digest(model.state) != digest_before_iface:
+        V.add("user-model-modified", "interface-construction", "creating the interface changed the state of the user's model")
+        return 0
     tol_cross = 5e-6
     tol_eager = 5e-6 if any(it.get("transform") for it in spec) else None
     A = M.assignable_items(spec)
@@ -269,7 +283,7 @@ def exec_liesel(plan, V, log, counters):
             raised = None
             try:
                 out = fn_for(mode)(*args)
-            except RuntimeError as e:
+            except Exception as e:
                 raised = e
             finally:
                 if mode != "eager":
@@ -292,7 +306,12 @@ def exec_liesel(plan, V, log, counters):
                 continue
             outs = [unstack_state(out, b_) for b_ in range(len(elems))] if "vmap" in mode else [out]
             for b_, (o, pos, st) in enumerate(zip(outs, positions, states)):
-                o = plain_state(o)
+                try:
+                    o = plain_state(o)
+                except Exception as e:
+                    V.add("returned-state-unusable", f"{mode}/{type(e).__name__}", f"{where}: the returned state cannot be read: {e}")
+                    pool.append(pool[0])
+                    continue
                 ref = ref_update(R, pos, st)
                 err = states_equal(o, ref, tol_eager if mode == "eager" else tol_cross)
                 if err:
@@ -302,14 +321,18 @@ def exec_liesel(plan, V, log, counters):
                 if od:
                     V.add("returned-state-outdated", mode, f"{where}: nodes {od[:4]} are flagged outdated in the returned state")
                 # (4) get-after-put
-                got = iface.extract_position([k[0] for k in keys], o)
+                try:
+                    got = iface.extract_position([k[0] for k in keys], o)
+                except Exception as e:
+                    V.add("unexpected-exception", f"extract_position/{type(e).__name__}", f"{where}: {e}")
+                    got = {k[0]: pos[k[0]] for k in keys}
                 for k in keys:
                     if not M.same_value(got[k[0]], pos[k[0]]):
                         V.add("get-after-put", mode, f"{where}: extract_position({k[0]}) = {M.show(got[k[0]])} after putting {M.show(pos[k[0]])}")
                 pool.append(o)
             # (2) history independence
             key = canon([mode, ks, elems])
-            dg = [state_digest(plain_state(o)) for o in outs]
+            dg = [state_digest(o) for o in outs]
             if key in results and results[key] != dg:
                 V.add("history-dependence", mode, f"{where}: the same call (mode, position, state) returned a different state than earlier in this run")
             if key in results:
@@ -319,7 +342,11 @@ def exec_liesel(plan, V, log, counters):
             keys = plan["keysets"][call[1]]
             st = pool[call[2] % len(pool)]
             d0 = state_digest(st)
-            got = iface.extract_position([k[0] for k in keys], st)
+            try:
+                got = iface.extract_position([k[0] for k in keys], st)
+            except Exception as e:
+                V.add("unexpected-exception", f"extract_position/{type(e).__name__}", f"{where}: {e}")
+                continue
             for k in keys:
                 # node name first, variable name second
                 name = k[0]
@@ -335,7 +362,11 @@ def exec_liesel(plan, V, log, counters):
         elif kind == "log_prob":
             st = pool[call[1] % len(pool)]
             f = iface.log_prob if call[2] == "eager" else jax.jit(iface.log_prob)
-            lp = f(st)
+            try:
+                lp = f(st)
+            except Exception as e:
+                V.add("unexpected-exception", f"log_prob/{type(e).__name__}", f"{where}: {e}")
+                continue
             with M.no_global_faults():
                 R.state = st
                 want = R.log_prob
